@@ -97,7 +97,9 @@ def model_position(engine, st, fr, callee, args, ops):
 
 def model_same_impl(engine, st, fr, callee, args, ops):
     """`Self::lookup_opcode(..)` called from `get` of the same table type: the callee of the caller's own impl block, from its MIR"""
-    impl_ = fr.fn.name.rsplit("::", 1)[0]
+    import re as _re
+    m_ = _re.match(r"^(.*<impl at [^>]*>)::", fr.fn.name)     # also from a closure inside the method
+    impl_ = m_.group(1) if m_ else fr.fn.name.rsplit("::", 1)[0]
     last = callee.rsplit("::", 1)[1]
     for mf in engine.mirs:
         c = [x for x in mf.find(last) if "closure" not in x[0] and x[0].rsplit("::", 1)[0] == impl_]
